@@ -87,7 +87,8 @@ def run_cli(binary, rec, cfg, group, shape_args, potential, reps, threads, extra
     w = info.get("written") or {}
     rec.records.append({"ev": "output", "code": code, "json": bool(info.get("json_exists")), "svg": bool(info.get("svg_exists")),
                         "msg": bool(info.get("message")) or ("error" in stderr_text.lower()),
-                        "panic": bool(info.get("panicked")) or code == 101 or code < 0 or code == 124,
+                        "panic": bool(info.get("panicked")) or code == 101 or (code < 0 and code != -9),
+                        "timedOut": code == 124,
                         "written_bits": w.get("score_bits"), "logged_bits": info.get("logged_bits"),
                         "json_digest": w.get("json_digest"), "svg_digest": info.get("svg_digest"),
                         "name": w.get("name") or "", "family": w.get("family") or "", "cellFamily": w.get("cell_family") or "",
@@ -301,6 +302,10 @@ def describe_failure(records, path, depth):
 def cli_failures(pid, tier, seed, want_cli=True, want_pool=True):
     """Observe, judge with TLC. Returns dict(failures, stats, tlc)."""
     records, stats = observe(tier, seed, want_cli, want_pool, pid=pid)
+    # an invocation that ran into the driver's own time limit says nothing about the program
+    if any(r.get("timedOut") for r in records):
+        return {"failures": [], "stats": stats, "tlc": {"distinct": 0, "generated": 0, "violations": [], "text_tail": ""}, "events": 0, "path": "",
+                "error": "a CLI invocation exceeded the driver's time limit of 600 s (machine overloaded?)"}
     r, path, n = judge(pid, records, pid + "_pipe")
     res = {"failures": [], "stats": stats, "tlc": r, "events": n, "path": path, "error": None}
     if r["violations"]:
